@@ -65,6 +65,16 @@ def writtenChartToJson (c : WrittenChart) : Json :=
        ("groove", listToJson ratToJson c.groove),
        ("measures", listToJson (listToJson strToJson) c.measures)]
 
+/-- Python's number rendering, supplied by the caller as a table `[[value, text], …]` (`repr(float)`); `str(int)` is
+the decimal numeral -/
+def showsOf (tab : List (Rat × Str)) : Shows :=
+  { rat := fun q => (tab.lookup q).getD ['?'], int := fun i => (toString i).toList }
+
+def numRowOfJson (j : Json) : Except String (Rat × Str) :=
+  match j with
+  | Json.arr #[a, b] => do .ok (← ratOf? a, ← strOfJson b)
+  | _ => .error s!"[value, text] expected: {j}"
+
 def handle (op : String) (j : Json) : Except String Json := do
   match op with
   | "c03.write" =>
@@ -73,6 +83,9 @@ def handle (op : String) (j : Json) : Except String Json := do
     match SM.write h cs with
     | .error e => .ok (errJson e.toString)
     | .ok w =>
+      let tab ← match fieldD j "nums" Json.null with
+        | Json.null => pure []
+        | t => arrOf? numRowOfJson t
       let diags := cs.map (fun c => match chartDiag c with
         | .ok (a, b, c) => obj [("exact_rows", Json.bool a), ("near_int", Json.bool b), ("collision", Json.bool c)]
         | .error _ => Json.null)
@@ -89,6 +102,7 @@ def handle (op : String) (j : Json) : Except String Json := do
         ("sample_start_sec", ratToJson w.sampleStartSec), ("sample_length_sec", ratToJson w.sampleLengthSec),
         ("selectable", strToJson w.selectable),
         ("charts", listToJson writtenChartToJson w.charts),
+        ("text", strToJson (renderWritten (showsOf tab) w)),
         ("diag", Json.arr diags.toArray)]))
   | _ => .error s!"unknown op {op}"
 
